@@ -92,6 +92,25 @@ def has_forced(t):
     return has_forced(t[1])
 
 
+def hoists_ab(t):
+    """An always_break reachable from t through concat / nest / group / always_break chains: normalisation hoists
+    it to the root of t (it stops at annotate, flat_choice, fill and at lazily evaluated align/hang documents)."""
+    if isinstance(t, str):
+        return False
+    k = t[0]
+    if k == 'ab':
+        return True
+    if k == 'cat':
+        return any(hoists_ab(c) for c in t[1])
+    if k == 'nest':
+        return hoists_ab(t[2])
+    if k == 'group':
+        return hoists_ab(t[1])
+    if k == 'fill':
+        return any((not isinstance(c, str)) and c[0] == 'ab' for c in t[1])
+    return False
+
+
 class Budget(Exception):
     pass
 
@@ -115,7 +134,7 @@ class Matcher:
         self.node_budget = node_budget
         self.cons = {}
         self.stats = {'flat_groups': 0, 'broken_groups': 0, 'exact_fit': 0, 'c06_obligations': 0, 'smart_only': 0, 'forced_later': 0,
-                      'flat_groups_with_text': 0}
+                      }
         self.used_lenient = False
 
     def push(self, frame, rest):
@@ -297,6 +316,8 @@ def would_fit(content, ind_g, rest, col, W, R, smart):
     first_line = True
     work = [(content, FLAT, ind_g, 0)]
     node = rest
+    if cur > limit:
+        return 'overflow'      # the line is already past the limit where the group starts
     while True:
         if not work:
             if node is None:
@@ -334,15 +355,24 @@ def would_fit(content, ind_g, rest, col, W, R, smart):
         elif k == 'nest':
             work.append((t[2], mode, ind + t[1], 0))
         elif k == 'align':
+            # a lazily evaluated document: when the engine reaches it, an always_break inside is hoisted to its start
+            if hoists_ab(t[1]):
+                return 'forced'
             work.append((t[1], mode, cur, 0))
         elif k == 'hang':
+            if hoists_ab(t[2]):
+                return 'forced'
             work.append((t[2], mode, cur + t[1], 0))
         elif k == 'ann':
+            if hoists_ab(t[2]):
+                return 'forced'
             work.append((t[2], mode, ind, 0))
         elif k == 'group':
             work.append((t[1], FLAT, ind, 0))
         elif k == 'ab':
-            return 'forced'
+            # reached through a concat/nest/group chain from the top: this marker was hoisted above the group under
+            # consideration by the initial normalisation, the engine no longer sees it here - its content is broken
+            work.append((t[1], BREAK, ind, 0))
         else:
             raise ValueError(t)
 
